@@ -25,7 +25,7 @@ STRS = ["text", "two words", "a;b", "x\\1y", "\\g<0>", "C:\\dir\\f", "e", "pi", 
 
 def gen_graph(rng):
     """variables: name -> spec ; spec = ('lit', value) | ('ref', name) | ('idx', name, i) | ('expr', text, [names])"""
-    names = rng.sample(["a", "ab", "a1", "b", "bc", "x", "x1", "xy", "k", "val", "n", "zz", "q"], rng.randint(2, 8))
+    names = rng.sample(["a", "ab", "a1", "b", "bc", "x", "x1", "xy", "k", "val", "n", "zz", "q", "2x", "1st", "_u", "K", "é1", "x_1"], rng.randint(2, 8))
     vars_: dict = {}
     ints = []
     for nm in names:
